@@ -75,7 +75,7 @@ PROPS = {
         "modules": ["SamlModel.Props.C06", "SamlModel.Props.Stateless"],
         "translated": ["checkRequestRequiredContent", "checkIfRequestTimeIsStillValid", "verifyRequestDestinationOfAuthRequest", "ServiceProvider_GetEntityID"],
         "trusted_base": COMMON_TRUST + SSO_TRUST + [
-            "time.Parse / time.Now are oracles (Ora.timeParse, Ora.now); XML decoding (DecodeAuthNRequest incl. base64/DEFLATE) is an oracle whose failure is `decoded = none`",
+            "time.Parse / time.Now are oracles (Ora.timeParse, Ora.now) in C06_accept_implies_valid and its corollaries; for the library's DefaultTimeFormat time.Parse is additionally modelled (Lib.Time.parseDefault, written from Go 1.23's time/format.go; compared with time.Parse on a boundary corpus and 2*10^4 (thorough 3*10^5) mutated strings on every run: `lib timeparse`) and C06_window_concrete / C06_zero_time_is_expired are stated over that model under the hypothesis ParsesAsGo; XML decoding (DecodeAuthNRequest incl. base64/DEFLATE) is an oracle whose failure is `decoded = none`",
         ],
         "assumptions": ["wall-clock cases keep a 10-minute guard band; the exact boundary NotBefore <= now < NotOnOrAfter is covered by the theorem on the translated time.go"],
     },
@@ -95,8 +95,9 @@ PROPS = {
     },
     "C03": {
         "modules": ["SamlModel.Props.C03", "SamlModel.Props.Stateless"],
-        "translated": ["Attributes_GetSAML", "Attributes_GetNameID", "getResponseCert"],
+        "translated": ["Attributes_GetSAML", "Attributes_GetNameID", "getResponseCert", "getIssuer", "makeResponse", "makeAssertion"],
         "trusted_base": COMMON_TRUST + CB_TRUST + [
+            "makeResponse / makeAssertion / getIssuer are translated (go2lean) and proved to refine the record builders of the callback model (C03_builders_refine); real functions vs generated definitions are compared on random arguments (`fn` ops, builders differential)",
             "time.Now/Format are inputs of the model (issueInstant, untilInstant); C03_window is stated for any formatter/parser with the stated granularity law; the harness brackets IssueInstant with the wall clock",
             "uuid.New is assumed not to repeat (C03_ids takes injectivity of the ID source as hypothesis); the '_'+uuid shape is checked by the harness on every reply",
             "Go map iteration order of custom attributes is the order of the list in the model (universally quantified); the harness compares the custom part sorted",
@@ -105,8 +106,9 @@ PROPS = {
     },
     "C13": {
         "modules": ["SamlModel.Props.C13", "SamlModel.Props.Stateless"],
-        "translated": ["checkIfRequestTimeIsStillValid"],
+        "translated": ["checkIfRequestTimeIsStillValid", "makeLogoutResponse", "getIssuer"],
         "trusted_base": COMMON_TRUST + [
+            "makeLogoutResponse / getIssuer are translated and proved to refine Logout.mkMsg (C13_builder_refines)",
             "Model.Logout is a hand-written model of logoutHandleFunc and the LogoutResponse builders: tied by theorem C13_source_current (regenerated chain skeleton = snapshot, fingerprints) and by the slo correspondence",
             "XML decoding (DecodeLogoutRequest incl. base64/DEFLATE) and html/template rendering are oracles / covered by C17, C18",
         ],
@@ -184,7 +186,7 @@ PROPS = {
     "C11": {
         "modules": ["SamlModel.Props.C11", "SamlModel.Props.Stateless"],
         "translated": ["Endpoint_Absolute", "Endpoint_Relative", "relativeEndpoint", "absoluteEndpoint", "getResponseCert",
-                       "signatureRedirectVerificationNecessary", "signaturePostVerificationNecessary"],
+                       "signatureRedirectVerificationNecessary", "signaturePostVerificationNecessary", "endpointConfigToEndpoints", "NewEndpoint"],
         "trusted_base": COMMON_TRUST + SSO_TRUST + [
             "Model.Metadata is a hand-written model of getMetadata / GetRoutes / CreateRouter / GetEntityID: tied by fingerprints (C11_source_current) and by the md correspondence (advertised locations and registered routes for every configuration)",
             "gorilla/mux matching is not modelled: 'maps onto a route' is proved on the registered path strings under routesDistinct, and observed by requesting every advertised location",
